@@ -65,7 +65,7 @@ def generate_changing_data(
             + f" (n={n} and max(changepoints)={max(changepoints)})."
         )
 
-    p = len(means[0])
+    p = max(len(means[0]), len(variances[0]))
     x = multivariate_normal.rvs(np.zeros(p), np.eye(p), n, random_state)
     x = np.reshape(x, (n, p))
     changepoints = [0] + changepoints + [n]
